@@ -165,18 +165,30 @@ type IZ interface{ MZ() string }
 
 type Z1 struct{}
 
-func (*Z1) MZ() string   { return "Z1" }
-func (*Z1) Run() error   { ZLog = append(ZLog, "run:Z1"); return nil }
+func (*Z1) MZ() string { return "Z1" }
+
+//go:norace
+func (*Z1) Run() error { ZLog = append(ZLog, "run:Z1"); return nil }
+
+//go:norace
 func (*Z1) Close() error { ZLog = append(ZLog, "close:Z1"); return nil }
 
 type Z2 struct{}
 
-func (*Z2) MZ() string   { return "Z2" }
-func (*Z2) Run() error   { ZLog = append(ZLog, "run:Z2"); return nil }
+func (*Z2) MZ() string { return "Z2" }
+
+//go:norace
+func (*Z2) Run() error { ZLog = append(ZLog, "run:Z2"); return nil }
+
+//go:norace
 func (*Z2) Close() error { ZLog = append(ZLog, "close:Z2"); return nil }
 
 type Z3 struct{}
 
-func (*Z3) MZ() string   { return "Z3" }
-func (*Z3) Run() error   { ZLog = append(ZLog, "run:Z3"); return nil }
+func (*Z3) MZ() string { return "Z3" }
+
+//go:norace
+func (*Z3) Run() error { ZLog = append(ZLog, "run:Z3"); return nil }
+
+//go:norace
 func (*Z3) Close() error { ZLog = append(ZLog, "close:Z3"); return nil }
